@@ -12,7 +12,8 @@ Proved here:
     member's `_active_index`, stores the resulting manager back, and `reading_as_list(name)` is that object's
     `as_list()`.
   * `member_standalone`: a member WITHOUT its own timeframe, in a Hexital with any other members (any
-    timeframes), under any program of `calculate / calculate_index / purge / recalculate / append`, ends with
+    timeframes), under any program of `calculate / calculate_index / purge / recalculate / append /
+    add_indicator / remove_indicator (of others)`, ends with
     the same collapsed candles and the same readings as the standalone indicator with the same tree
     constructed from the same candles and driven with the same program – provided the member's tree neither
     writes under nor can read a name of another member (read-set locality of all 28 kinds,
@@ -144,12 +145,14 @@ theorem member_column (h h' : Hexital F) (name : String) (hi : HxInd F) (m : Man
 
 /-- **Members on the default manager behave exactly like standalone indicators.**  `N` collects the
 names of all other members; `TreeOK N a.tree` says that `a`'s tree writes under none of them and
-that none of the names it reads can resolve to one of them (no collision, no input dependency). -/
+that none of the names it reads can resolve to one of them (no collision, no input dependency).
+`TwinOp.OK` only constrains `add_indicator` (other names, within `N`) and `remove_indicator` (not `a`). -/
 theorem member_standalone (cfg : MgrCfg) (tf : Option String) (init : List (Candle F))
     (members : List (Member F)) (a : Member F) (N : List String) (ops : List (TwinOp F)) (H : Hexital F)
     (ha : a ∈ Hexital.dedupe members) (hatf : a.tfName = none)
     (hoth : ∀ m, m ∈ Hexital.dedupe members → m.tree.name ≠ a.tree.name → ∀ k, k ∈ m.tree.allNames → k ∈ N)
-    (hok : TreeOK N a.tree) (hrun : runHexital cfg tf init members ops = .ok H) :
+    (hok : TreeOK N a.tree) (hops : ∀ op, op ∈ ops → op.OK N a.tree.name)
+    (hrun : runHexital cfg tf init members ops = .ok H) :
     ∃ twin, runTwin a.tree cfg init ops = .ok twin ∧
       (∃ hi m, dlookup a.tree.name H.indicators = some hi ∧ hi.tree = a.tree ∧
         dlookup hi.mgrKey H.managers = some m ∧ m.cfg = twin.mgr.cfg ∧
@@ -157,7 +160,7 @@ theorem member_standalone (cfg : MgrCfg) (tf : Option String) (init : List (Cand
         ∀ k, k ∈ a.tree.allNames → storedUnder k m.candles = storedUnder k twin.mgr.candles) ∧
       (∀ name, (splitDot name).headD "" = a.tree.name → readOK N name = true →
         H.readingAsList name = .ok (twin.asList (some name))) := by
-  obtain ⟨twin, hrun', ht, inv⟩ := member_twin cfg tf init members a ops H ha hatf hoth hok hrun
+  obtain ⟨twin, hrun', ht, inv⟩ := member_twin cfg tf init members a ops H ha hatf hoth hok hops hrun
   refine ⟨twin, hrun', ?_, fun name hp hr => inv.column name hp hr⟩
   obtain ⟨hi, m, h1, h2, h3, h4, h5, h6⟩ := inv.readings (ht ▸ hok)
   exact ⟨hi, m, h1, h2.trans ht, h3, h4, h5, fun k hk => h6 k (ht ▸ hk)⟩
@@ -238,15 +241,17 @@ example : (match exHex with
 a program mixing appends with maintenance aimed at everything, at the member and at the other member -/
 def exOps : List (TwinOp Int) :=
   [.calculate none, .append [exCandle 16, exCandle 12], .purge (some "RSI_2"), .calculateIndex none 3,
-   .recalculate (some "SMA_2"), .append [exCandle 18], .calculate (some "RSI_2")]
+   .recalculate (some "SMA_2"), .append [exCandle 18], .calculate (some "RSI_2"), .remove (some "RSI_2"),
+   .add [exB], .calculate none]
 
 example : (exA ∈ Hexital.dedupe [exB, exA] ∧ exA.tfName = none) ∧
     treeOKb exB.tree.allNames exA.tree = true ∧
+    exOps.all (TwinOp.okb exB.tree.allNames "SMA_2") = true ∧
     isOk (runHexital {} none exCandles [exB, exA] exOps) = true ∧
     (match runTwin exA.tree {} exCandles exOps with
      | .ok twin => (twin.asList none).map Val.isNone
      | .error _ => []) = [true, false, false, false, false, false, false, false, false] := by
-  refine ⟨⟨?_, rfl⟩, ?_, ?_, ?_⟩
+  refine ⟨⟨?_, rfl⟩, ?_, ?_, ?_, ?_⟩
   · simp [Hexital.dedupe, exA, exB, mkTop, Ind.name, dset]
   all_goals decide +kernel
 
